@@ -40,11 +40,11 @@ example : sqRes256 ([0x2a05f20c1, 0x1].headD 0) = true ∧
     perfsqrModTest (perfsqrFold (mod34lsub1 [0xfffffffe00000001, 0])) = true := by decide +kernel
 example : perfsqrModTest (perfsqrFold (mod34lsub1 [5, 1])) = false := by decide +kernel
 
-/-- mpn_perfect_square_p answers the manual's question, given that the final mpn_sqrtrem call reports a
-    zero remainder exactly for squares (`sqrtrem_rn_zero_iff` below discharges that hypothesis from the
-    square-root theorems). -/
+/-- mpn_perfect_square_p answers the manual's question, given that its third test (normalise, zero is a
+    square, then mpn_sqrtrem reports a zero remainder) is right; `mpn_perfect_square_p_spec` below
+    discharges that hypothesis from the square-root theorems. -/
 theorem perfect_square_p_iff (up : List Nat) (hl : Limbs up) (hne : up ≠ []) (hn : up.length + 1 < B)
-    (hs : (sqrtrem up).rn = 0 ↔ ∃ k, val up = k * k) :
+    (hs : perfectSquareFinal up = true ↔ ∃ k, val up = k * k) :
     perfectSquareP up = true ↔ ∃ k, val up = k * k := by
   unfold perfectSquareP
   generalize hA : sqRes256 (up.headD 0) = A
@@ -90,60 +90,47 @@ theorem mpz_root_sign_flag (u : Int) (n : Nat) (hrr : RootremSpec) :
         mpzRoot u n = .ok (root, flag) ∧ mpzRootrem u n = .ok (root, rem) ∧
         root = u.sign * (iroot n u.natAbs : Nat) ∧
         (flag = true ↔ (iroot n u.natAbs) ^ n = u.natAbs) ∧ (flag = true ↔ root ^ n = u) ∧
-        root ^ n + rem = u) := by
-  refine ⟨fun h => ?_, fun h h0 => ?_, fun h h0 => ?_⟩
-  · simp [mpzRoot, mpzRootrem, (mpzRootCore_exc u n false).1 h, (mpzRootCore_exc u n true).1 h, Except.map]
-  · simp [mpzRoot, mpzRootrem, (mpzRootCore_exc u n false).2 h h0, (mpzRootCore_exc u n true).2 h h0,
-      Except.map]
-  · obtain ⟨r0, e0, -⟩ := mpzRootCore_ok u n false hrr h h0
-    obtain ⟨r1, e1, hr1⟩ := mpzRootCore_ok u n true hrr h h0
-    have hr1 := hr1 rfl
-    have hn : 0 < n := Nat.pos_of_ne_zero h0
-    obtain ⟨s1, s2⟩ := iroot_spec n u.natAbs hn
-    generalize iroot n u.natAbs = t at *
-    refine ⟨u.sign * (t : Int), r1, decide (t ^ n = u.natAbs), ?_, ?_, rfl, by simp, ?_, ?_⟩
-    · simp [mpzRoot, e0, Except.map]
-    · simp [mpzRootrem, e1, Except.map]
-    · -- root^n = u ↔ t^n = |u|
-      rw [decide_eq_true_iff]
-      rcases lt_trichotomy u 0 with hu | hu | hu
-      · have hodd : Odd n := Nat.odd_iff.mpr (by have := Nat.mod_two_eq_zero_or_one n; omega)
-        have hab : (u.natAbs : Int) = -u := Int.ofNat_natAbs_of_nonpos (le_of_lt hu)
-        rw [Int.sign_eq_neg_one_of_neg hu, neg_one_mul, Odd.neg_pow hodd]
-        constructor
-        · intro e; have : (t : Int) ^ n = (u.natAbs : Int) := by rw [← e, Nat.cast_pow]
-          rw [this, hab]; ring
-        · intro e; have : ((t : Int)) ^ n = (u.natAbs : Int) := by rw [hab]; linarith
-          exact_mod_cast this
-      · subst hu
-        simp only [Int.natAbs_zero, Nat.le_zero] at s1
-        simp [(Nat.pow_eq_zero.mp s1).1, Nat.ne_of_gt hn]
-      · have hab : (u.natAbs : Int) = u := Int.natAbs_of_nonneg (le_of_lt hu)
-        rw [Int.sign_eq_one_of_pos hu, one_mul]
-        constructor
-        · intro e; have : (t : Int) ^ n = (u.natAbs : Int) := by rw [← e, Nat.cast_pow]
-          rw [this, hab]
-        · intro e; have : ((t : Int)) ^ n = (u.natAbs : Int) := by rw [hab]; exact e
-          exact_mod_cast this
-    · -- root^n + rem = u
-      rw [hr1]
-      have hc : ((u.natAbs - t ^ n : Nat) : Int) = (u.natAbs : Int) - (t : Int) ^ n := by
-        rw [Int.ofNat_sub s1]; push_cast; ring
-      rw [hc]
-      rcases lt_trichotomy u 0 with hu | hu | hu
-      · have hodd : Odd n := Nat.odd_iff.mpr (by have := Nat.mod_two_eq_zero_or_one n; omega)
-        rw [Int.sign_eq_neg_one_of_neg hu, neg_one_mul, Odd.neg_pow hodd,
-          Int.ofNat_natAbs_of_nonpos (le_of_lt hu)]
-        ring
-      · subst hu
-        simp only [Int.natAbs_zero, Nat.le_zero] at s1
-        simp [(Nat.pow_eq_zero.mp s1).1, Nat.ne_of_gt hn]
-      · rw [Int.sign_eq_one_of_pos hu, one_mul, one_mul, Int.natAbs_of_nonneg (le_of_lt hu)]
-        ring
+        root ^ n + rem = u) :=
+  mpz_root_sign_flag_at u n (fun h0 h1 w => hrr u.natAbs n w (Int.natAbs_pos.mpr h0) h1)
 
 -- non-vacuity: a negative cube and a negative non-cube, an even root of a negative, a zeroth root
 example : mpzRoot (-27) 3 = .ok (-3, true) ∧ mpzRootrem (-30) 3 = .ok (-3, -3) ∧
     mpzRoot (-4) 2 = .error "sqrtneg" ∧ mpzRoot 5 0 = .error "div0" ∧ mpzRoot (-5) 0 = .error "sqrtneg" := by
+  decide +kernel
+
+/-- UNCONDITIONAL for a root index at least the bit length of `|u|` (the region of repaired defect
+    4290b4f: `mpz_root (r, 2^384, 2^44)` used to abort on a 1.2 TB allocation): on every dispatch path of
+    mpn_rootrem (basecase, mpn_rootrem_internal's root-is-1 exit, taken before any temporary is
+    allocated) the root is `sign(u)·1`, the flag says `|u| = 1`, the remainder is `u − sign(u)`; no
+    hypothesis about the Newton iterations is needed. -/
+theorem mpz_root_huge_index (u : Int) (n : Nat) (hu : u ≠ 0) (hn : bitLen u.natAbs ≤ n)
+    (hs : ¬(u < 0 ∧ n % 2 = 0)) :
+    mpzRoot u n = .ok (u.sign, decide (u.natAbs = 1)) ∧ mpzRootrem u n = .ok (u.sign, u - u.sign) := by
+  have ha : 0 < u.natAbs := Int.natAbs_pos.mpr hu
+  have hn0 : n ≠ 0 := by have := bitLen_spec u.natAbs ha; omega
+  obtain ⟨root, rem, flag, e1, e2, hr, hf, -, hsum⟩ :=
+    (mpz_root_sign_flag_at u n (fun _ _ => rootremAt_huge u.natAbs n ha hn)).2.2 hs hn0
+  rw [iroot_eq_one u.natAbs n ha hn (Nat.pos_of_ne_zero hn0)] at hr hf
+  simp only [Nat.cast_one, mul_one] at hr
+  subst hr
+  have hpow : u.sign ^ n = u.sign := by
+    rcases lt_trichotomy u 0 with h | h | h
+    · have hodd : Odd n := Nat.odd_iff.mpr (by have := Nat.mod_two_eq_zero_or_one n; omega)
+      rw [Int.sign_eq_neg_one_of_neg h, Odd.neg_one_pow hodd]
+    · exact absurd h hu
+    · rw [Int.sign_eq_one_of_pos h, one_pow]
+  rw [hpow] at hsum
+  have hrem : rem = u - u.sign := by omega
+  have hflag : flag = decide (u.natAbs = 1) := by
+    simp only [Nat.one_pow] at hf
+    by_cases h1 : u.natAbs = 1
+    · simp [h1, hf.mpr h1.symm]
+    · have : flag ≠ true := fun h => h1 (hf.mp h).symm
+      simp [h1, this]
+  rw [e1, e2, hrem, hflag]
+  exact ⟨rfl, rfl⟩
+
+example : mpzRoot (2 ^ 384) (2 ^ 44) = .ok (1, false) ∧ mpzRootrem (-(2 ^ 384)) (2 ^ 64 - 1) = .ok (-1, 1 - 2 ^ 384) := by
   decide +kernel
 
 /-- mpn_sqrtrem1 (sqrtrem.c:145-196) on a normalised limb `B/4 ≤ a < B`: the `approx_tab` seed, its
@@ -201,12 +188,17 @@ theorem mpn_sqrtrem_spec (np : List Nat) (hl : Limbs np) (hne : np ≠ []) (hhi 
 example : (sqrtrem [5, 0, 1]).sp = [0, 1] ∧ (sqrtrem [5, 0, 1]).rp = [5] ∧ (sqrtrem [5, 0, 1]).rn = 1 := by
   decide +kernel
 
-/-- mpn_perfect_square_p answers exactly "is `{s1p, n}` a perfect square" (operands with a non-zero most
-    significant limb, which is what its final mpn_sqrtrem call requires): unconditional form of
-    `perfect_square_p_iff`. -/
-theorem mpn_perfect_square_p_spec (up : List Nat) (hl : Limbs up) (hne : up ≠ []) (hn : up.length + 1 < B)
-    (hhi : up.getLastD 0 ≠ 0) : perfectSquareP up = true ↔ ∃ k, val up = k * k :=
-  perfect_square_p_iff up hl hne hn (sqrtrem_full up hl hne hhi).2.2.2.2
+/-- mpn_perfect_square_p answers exactly "is `{s1p, n}` a perfect square" for EVERY limb vector with
+    `n ≥ 1` limbs — the most significant limbs may be zero and the all-zero vector is a square (the C
+    normalises before its final mpn_sqrtrem call, perfect_square_p.c:214-216): unconditional form of
+    `perfect_square_p_iff`.  (`n + 1 < B` is mpn_mod_34lsub1's ASSERT on the size.) -/
+theorem mpn_perfect_square_p_spec (up : List Nat) (hl : Limbs up) (hne : up ≠ []) (hn : up.length + 1 < B) :
+    perfectSquareP up = true ↔ ∃ k, val up = k * k :=
+  perfect_square_p_iff up hl hne hn (perfectSquareFinal_iff up hl)
+
+-- non-vacuity: unnormalised operands, the all-zero vector
+example : perfectSquareP [4, 0] = true ∧ perfectSquareP [0, 0] = true ∧ perfectSquareP [0, 1, 0] = true ∧
+    perfectSquareP [5, 0] = false ∧ perfectSquareP [0, 2, 0, 0] = false := by decide +kernel
 
 /-- mpz_sqrt, mpz_sqrtrem (mpz/sqrt.c, mpz/sqrtrem.c) and mpz_perfect_square_p (mpir.h): negative operands
     raise the square-root exception, otherwise `⌊√u⌋` and `u − ⌊√u⌋²`; the predicate is true exactly
@@ -247,7 +239,7 @@ theorem mpz_sqrt_spec (u : Int) :
               (natLimbs u.toNat).getLastD 0 * B ^ ((natLimbs u.toNat).length - 1) :=
             Nat.mul_le_mul_right _ (Nat.pos_of_ne_zero w3)
           omega
-        have key := mpn_perfect_square_p_spec (natLimbs u.toNat) w2 w1 hlen w3
+        have key := mpn_perfect_square_p_spec (natLimbs u.toNat) w2 w1 hlen
         rw [(val_natLimbs u.toNat).1] at key
         simp only [mpzPerfectSquareP, hgt, if_true]
         rw [key]
